@@ -239,7 +239,8 @@ Definition best_valid (s : state) : option pair :=
   best_of (filter (fun p => p_state p =? CandidatePairStateSucceeded) (s_checklist s)) None.
 
 Definition pair_equal (a b : pair) : bool :=
-  cand_equal (p_loc a) (p_loc b) && cand_equal (p_rem a) (p_rem b).
+  (* the GENERATED function (Gen/Lifecycle.v, from CandidatePair.equal); both pairs exist *)
+  CandidatePair_equal false false (cand_equal (p_loc a) (p_loc b)) (cand_equal (p_rem a) (p_rem b)).
 
 (* ---- selectors ------------------------------------------------------------------------------ *)
 Definition acceptance_wait (cfg : config) (c : cand) : option Z :=
@@ -379,7 +380,8 @@ Fixpoint take_pending (tx : Z) (l : list pending) : option (pending * list pendi
 
 (* responseSymmetric *)
 Definition response_symmetric (q : pending) (l : cand) (src : addr) : bool :=
-  (q_net q =? c_net l) && addr_eqb (q_dst q) src.
+  (* the GENERATED function (Gen/Lifecycle.v, from responseSymmetric) *)
+  responseSymmetric (q_net q) (c_net l) (addr_eqb (q_dst q) src).
 
 (* controllingSelector.HandleSuccessResponse *)
 Definition handle_success_controlling (cfg : config) (m : msg) (l r : cand) (src : addr) : M :=
